@@ -1,12 +1,115 @@
 //! C15 — STAM CSV round trip preserves structure, targets and the text of values.
 
 use crate::c05::{compare, store_cfg};
+use crate::gen::GenCfg;
 use crate::hist::*;
+use crate::model::{Op, Ref};
 use crate::obs;
 use crate::util::*;
 use serde_json::{json, Value};
 use stam::*;
 use std::sync::atomic::Ordering;
+
+/// what a second save must bring up to date: per dataset its keys and the (key, value text) of its data, the number of annotations, the texts
+fn reduced(store: &AnnotationStore) -> Value {
+    let mut sets = serde_json::Map::new();
+    for s in store.datasets() {
+        let mut keys: Vec<String> = s.keys().filter_map(|k| k.id().map(|x| x.to_string())).collect();
+        keys.sort();
+        let mut data: Vec<(String, String)> = s.data().map(|d| (d.key().id().unwrap_or("").to_string(), d.value().to_string())).collect();
+        data.sort();
+        sets.insert(s.id().unwrap_or("").to_string(), json!({"keys": keys, "data": data}));
+    }
+    let mut texts = serde_json::Map::new();
+    for r in store.resources() {
+        texts.insert(r.id().unwrap_or("").to_string(), json!(r.text()));
+    }
+    json!({"datasets": sets, "annotations": store.annotations().count(), "resources": texts})
+}
+
+/// save as STAM CSV, change the store a little, save again to the same files, load: the files must have followed the store
+fn csv_incremental(rep: &mut Report, h: &mut History, dir: &str, rng: &mut Rng, cfg: GenCfg) {
+    let _ = std::fs::remove_dir_all(dir);
+    std::fs::create_dir_all(dir).expect("workdir");
+    let path = format!("{}/inc.store.stam.csv", dir);
+    if !matches!(guard(|| h.store.to_file(&path)), Ok(Ok(()))) {
+        let _ = std::fs::remove_dir_all(dir);
+        return; // judged by the plain round trip
+    }
+    let mut g = crate::gen::Gen::new(cfg);
+    for _ in 0..60 {
+        let _ = g.fresh_id(rng, "z");
+    }
+    let mut kinds: Vec<&'static str> = Vec::new();
+    for _ in 0..rng.range(1, 4) {
+        // removals of keys and data first of all: a key without data, a data item nobody uses
+        let op = if rng.chance(1, 2) {
+            let cands: Vec<(String, String, bool)> = h.model.sets.values().filter(|s| s.id != crate::model::TEXTVALIDATION_SET).flat_map(|s| s.keys.values().map(move |k| (s.id.clone(), k.id.clone(), s.data.values().any(|d| d.key == k.handle)))).collect();
+            match cands.iter().find(|c| !c.2).or(cands.first()) {
+                Some((set, key, _)) => Op::RemoveKey { set: Ref::Id(set.clone()), key: Ref::Id(key.clone()), strict: rng.chance(1, 2) },
+                None => g.gen_op(rng, &h.model),
+            }
+        } else {
+            g.gen_op(rng, &h.model)
+        };
+        if matches!(op, Op::AddResource { .. } | Op::AddDataset { .. } | Op::ProtectText(_)) {
+            continue;
+        }
+        let sets_before = h.model.sets.len();
+        let r = h.step(&op);
+        if !r.agreement.in_step() {
+            let _ = std::fs::remove_dir_all(dir);
+            return;
+        }
+        if h.model.sets.len() > sets_before {
+            // a dataset born after the switch to CSV has no file name and the writer says so ("must have a set filename for
+            // CSV serialization to work"): a refusal, not a round trip; not what this stage is about
+            rep.count("incremental/new-dataset-after-first-save(not judged)");
+            let _ = std::fs::remove_dir_all(dir);
+            return;
+        }
+        if matches!(r.agreement, Agreement::Ok) {
+            kinds.push(op.kind());
+        }
+    }
+    if kinds.is_empty() {
+        let _ = std::fs::remove_dir_all(dir);
+        return;
+    }
+    kinds.sort();
+    kinds.dedup();
+    rep.eval();
+    rep.distinct(&format!("incremental|{}", kinds.join("+")));
+    match guard(|| h.store.to_file(&path)) {
+        Ok(Ok(())) => {}
+        Ok(Err(e)) => {
+            rep.violation(format!("C15/incremental/save-error/after:{}", kinds.join("+")), json!({"error": format!("{}", e), "history": h.replay_json()}));
+            let _ = std::fs::remove_dir_all(dir);
+            return;
+        }
+        Err(pn) => {
+            rep.violation(format!("C15/incremental/save-panic/{}", pn.class()), json!({"panic": pn.msg, "at": pn.loc, "history": h.replay_json()}));
+            let _ = std::fs::remove_dir_all(dir);
+            return;
+        }
+    }
+    let loaded = guard(|| AnnotationStore::from_file(&path, Config::default().with_debug(false)));
+    let _ = std::fs::remove_dir_all(dir);
+    match loaded {
+        Ok(Ok(l)) => {
+            let (a, b) = (reduced(&h.store), reduced(&l));
+            if let Some((path, x, y)) = first_diff(&a, &b, "") {
+                rep.violation(
+                    format!("C15/incremental/after:{}/differs{}", kinds.join("+"), path_class(&path)),
+                    json!({"path": path, "store": x, "loaded_after_second_save": y, "history": h.replay_json()}),
+                );
+            }
+        }
+        // the recorded temporary-id findings make some stores with gaps unloadable: the plain round trip reports those
+        Ok(Err(_)) => rep.count("incremental/second-save-does-not-load"),
+        Err(pn) => rep.violation(format!("C15/incremental/load-panic/{}", pn.class()), json!({"panic": pn.msg, "at": pn.loc, "history": h.replay_json()})),
+    }
+}
 
 pub fn run(p: &Params, rep: &mut Report) {
     obs::VALUE_AS_TEXT.store(true, Ordering::Relaxed);
@@ -26,7 +129,11 @@ pub fn run(p: &Params, rep: &mut Report) {
         cfg.hostile_ids = rng.chance(1, 3);
         cfg.text_min = 1; // the CSV route keeps every resource in a stand-off .txt file (see C05 known finding for empty ones)
         let nops = rng.range(4, if p.thorough { 28 } else { 18 }) as usize;
-        let mut h = random_history(&mut rng, cfg, nops, 100, true);
+        let mut h = random_history(&mut rng, cfg.clone(), nops, 100, true);
+        if k % 3 == 2 {
+            csv_incremental(rep, &mut h, &format!("{}/c15-inc-{}", p.workdir, k), &mut rng, cfg);
+            continue;
+        }
         let before = match obs::observe(&h.store, false, true) {
             Ok(o) => o,
             Err(_) => continue,
